@@ -1,5 +1,5 @@
 (* Shared vocabulary: results, small list helpers.  Stdlib only. *)
-From Coq Require Export ZArith List Bool String Ascii Lia.
+From Coq Require Export String Ascii ZArith Bool List Lia.
 Export ListNotations.
 
 (* Outcome classes of an API call, as canonicalised by the harness. *)
